@@ -366,7 +366,9 @@ def eval_big(env, root, group):
 SELONLY = [("concat('f:', name)", lambda e: 'f:' + e['name']), ("concat_ws('-', 'f', path)", lambda e: 'f-' + e['path']),
            ("replace('x-y', 'y', name)", lambda e: 'x-' + e['name']),
            # functions that read the entry although they name no column (values are not judged: None)
-           ("contains('zzz')", None), ("has_xattr(user.none)", None), ("concat('a', has_caps())", None), ("upper(contains('q'))", None)]
+           ("contains('zzz')", None), ("has_xattr(user.none)", None), ("concat('a', has_caps())", None), ("upper(contains('q'))", None),
+           # a select list without any column: a row per entry of the place searched all the same, with or without LIMIT
+           ('1', lambda e: '1'), ("'hit'", lambda e: 'hit'), ('2 + 2', lambda e: '4'), ("upper('x')", lambda e: 'X'), ('curdate()', None), ("1, 'a'", None)]
 
 
 def eval_selonly(env, root, group):
@@ -380,7 +382,7 @@ def eval_selonly(env, root, group):
         N = c['N']
         q = sel + ' from ' + ', '.join(rootlist) + ('' if N is None else ' limit %d' % N) + ' into list'
         o = env.run([q], cwd=root)
-        rows = o.rows()
+        rows = o.rows(2) if sel == "1, 'a'" else o.rows()
         M = len(ents)
         want = M if N in (None, 0) else min(N, M)
         allv = sorted(f(e) for e in ents) if f else None
